@@ -50,7 +50,7 @@ Print Assumptions C05_regenerated_maximum.
    regenerated minimum / maximum and restoreKey, ARE the Minimum / Maximum cases of Model.Api.step on the raw state
    (the unsigned instance; TranslateApiFacts proves all six): (k, v, true) with the restored key, or (_, _, false) on
    the empty tree; no panic *)
-From GoArt Require Import Model.Api Model.PoolTree Proofs.PoolTreeFacts Model.GoTree Gen.ApiGen Proofs.TranslateApiFacts.
+From GoArt Require Import Model.Api Model.PoolTree Proofs.PoolTreeFacts Model.GoTree Gen.ApiGen Proofs.TranslateApiBase Proofs.TranslateApiWrap.
 Theorem C05_regenerated_Minimum_Maximum : forall w st fm, sinv st -> root_wf (sabs st) ->
   (forall t, xroot st = Some t -> fm = theight (tabs t)) ->
   gopt_out idk (g_unsigned_Minimum akey (mtr (KUnsigned w)) (mrs (KUnsigned w)) fm (xroot st)) = snd (step (KUnsigned w) (sabs st) Minimum) /\
